@@ -18,7 +18,7 @@
    BatchStart events, which is what the harness compares with the real code. *)
 From Coq Require Import List Arith NArith Bool.
 Import ListNotations.
-Require Import Aiuti.Case_Batcher Aiuti.Case_Batcher_Sound Aiuti.Case_Batcher_Basic Aiuti.BatcherSim Aiuti.Case_Batcher_C10 Aiuti.Batcher Aiuti.BatcherLimits Aiuti.BatcherTime Aiuti.BatcherOrder.
+Require Import Aiuti.Case_Batcher Aiuti.Case_Batcher_Sound Aiuti.Case_Batcher_Basic Aiuti.BatcherSim Aiuti.Case_Batcher_C10 Aiuti.Case_Batcher_Sound04 Aiuti.Case_Batcher_Sound10 Aiuti.Batcher Aiuti.BatcherLimits Aiuti.BatcherTime Aiuti.BatcherOrder.
 
 (* Every batch handed to the batch function is non-empty and no larger than
    lim = the largest max_batch_size that was in force when one of its items
@@ -200,6 +200,25 @@ Theorem monitor_complete_nochain :
   ok_C10 (BCase c evs (map canon (fst (run c evs))) w) = true.
 Proof. exact ok_C10_complete. Qed.
 Print Assumptions monitor_complete_nochain.
+
+(* Model-free SOUNDNESS of the state-dependent conjuncts of ok_C10 (script and observed trace
+   only): if ok_C10 accepts, then at every macro step every observed BatchStart — judged in the
+   monitor state after this step's calls were registered ([pre_starts]), batch after batch —
+   is exactly the first n requests of the queue of expected requests (FIFO; they are consumed),
+   with 1 <= n <= the largest limit in force when one of them arrived; the previous batch was
+   full or this batch's first request arrived >= batch_timeout after its last one; consecutive
+   requests of the batch arrived < batch_timeout apart and the batch was not full before its
+   last request; the start tick is >= sp and equals sp unless this step's event ended a batch
+   while all slots were busy (sp = last arrival if that filled the batch, else + batch_timeout);
+   at most max_concurrent_batches observed batches are live; the start is not in the future.
+   PARTIAL: the queue of expected requests is the monitor's (the item-creating calls according
+   to the window specification of ok_C11, with arrival tick and limit taken from the script);
+   the final rule (open requests still inside their timeout) is not restated. *)
+Theorem monitor_sound_starts_partial :
+  forall c evs observed w, ok_C10 (BCase c evs observed w) = true ->
+  all_steps (starts_justified c) c (minit c) evs observed.
+Proof. exact ok_C10_sound_starts. Qed.
+Print Assumptions monitor_sound_starts_partial.
 
 (* Soundness of the full monitor, PARTIAL.  ok_C10 (Case_Batcher.v) judges the observed trace
    independently of the model.  Proved: acceptance implies every observed batch is
